@@ -57,22 +57,24 @@ def finite_lemmas(chk):
                                   f'character {w!r} in table: {r[1]}, in POSIX {name}{" complement" if neg else ""}: {r[2]}', replay)
                     chk.obligation(ob, 'refuted', 'finite', time.time() - t1)
     # fragment templates with a fresh letter standing for an arbitrary sub-language
-    X = R.s_chr('x')
+    # the body is an alternation of texts of different lengths, so a misplaced quantifier cannot hide (`(?:x|yz?)` is not `(?:x|yz)?`)
+    BODY = 'x|yz'
+    X = R.s_alt(R.s_chr('x'), R.s_str('yz'))
     ANY = R.s_cls(((0, R.UMAX),))
     lemmas = [
         ('_QMARK', '(?s:' + W._QMARK + ')', ANY),
         ('_STAR', '(?s:' + W._STAR + ')', R.s_star(ANY)),
         ('_NEED_CHAR+_STAR', '(?s:' + W._NEED_CHAR + W._STAR + ')', R.s_plus(ANY)),
         ('_NO_DOT+_STAR', '(?s:' + W._NO_DOT + W._STAR + ')', R.s_opt(R.s_cat(R.s_cls(R.compl(((46, 46),), R.UMAX)), R.s_star(ANY)))),
-        ('_QMARK_GROUP', W._QMARK_GROUP.format('x'), R.s_opt(X)),
-        ('_STAR_GROUP', W._STAR_GROUP.format('x'), R.s_star(X)),
-        ('_PLUS_GROUP', W._PLUS_GROUP.format('x'), R.s_plus(X)),
-        ('_GROUP', W._GROUP.format('x'), X),
-        ('_QMARK_CAPTURE_GROUP', W._QMARK_CAPTURE_GROUP.format('x'), R.s_opt(X)),
-        ('_STAR_CAPTURE_GROUP', W._STAR_CAPTURE_GROUP.format('x'), R.s_star(X)),
-        ('_PLUS_CAPTURE_GROUP', W._PLUS_CAPTURE_GROUP.format('x'), R.s_plus(X)),
-        ('_CAPTURE_GROUP', W._CAPTURE_GROUP.format('x'), X),
-        ('_EXCLA_GROUP', '(?s:' + W._EXCLA_GROUP.format('x') + r'\Z' + W._EXCLA_GROUP_CLOSE.format(W._STAR) + ')',
+        ('_QMARK_GROUP', W._QMARK_GROUP.format(BODY), R.s_opt(X)),
+        ('_STAR_GROUP', W._STAR_GROUP.format(BODY), R.s_star(X)),
+        ('_PLUS_GROUP', W._PLUS_GROUP.format(BODY), R.s_plus(X)),
+        ('_GROUP', W._GROUP.format(BODY), X),
+        ('_QMARK_CAPTURE_GROUP', W._QMARK_CAPTURE_GROUP.format(BODY), R.s_opt(X)),
+        ('_STAR_CAPTURE_GROUP', W._STAR_CAPTURE_GROUP.format(BODY), R.s_star(X)),
+        ('_PLUS_CAPTURE_GROUP', W._PLUS_CAPTURE_GROUP.format(BODY), R.s_plus(X)),
+        ('_CAPTURE_GROUP', W._CAPTURE_GROUP.format(BODY), X),
+        ('_EXCLA_GROUP', '(?s:' + W._EXCLA_GROUP.format(BODY) + r'\Z' + W._EXCLA_GROUP_CLOSE.format(W._STAR) + ')',
          R.s_diff(R.s_star(ANY), X)),
     ]
     for name, rx, want in lemmas:
